@@ -12,7 +12,7 @@ def sh(cmd):
 def main():
     pid, var = sys.argv[1], sys.argv[2]
     checks = sys.argv[3:] or [pid]
-    for base in (f"{VERIF}/seeded/{pid}{var}", f"{VERIF}/scratch/seeded_in/{pid}/{var}"):
+    for base in (f"{VERIF}/seeded/{pid}{var}", f"{VERIF}/scratch/seeded_in/{pid}/{var}", f"{VERIF}/scratch/seeded_in2/{pid}/{var}"):
         if os.path.exists(base + "/patch.diff"):
             break
     patch = base + "/patch.diff"
